@@ -354,7 +354,7 @@ OPEN = {
     "C09": ["'no exported function writes to the byte slices or Patch it is given' is observed and supported by regenerated facts, not a theorem"],
     "C10": ["data-race freedom under the Go memory model: executed schedules only (race detector)"],
     "C15": ["tests_transparent holds outside the known-finding trigger class and for duplicate-free names (C15.counterexample_dup shows duplicates break it: outside every property's domain)"],
-    "C16": ["Apply with leading CR before an ARRAY document: accepted, but pointers with an empty first token see the `isArray` quirk (C16.apply_ws needs CR-free white space for arrays; outside the RFC pointer domain)"],
+    "C16": [],
     "C17": ["struct tags, float formatting, Decoder/Encoder streams and Go types outside the library's target shapes: differential testing against encoding/json only",
             "the unchecked entry points (UnmarshalValid*) on ILL-FORMED texts: model validated by testing only (the library never calls them behind a failed Valid gate)"],
     "C19": ["CreateMergePatch is modelled for plain-integer numbers only (float64 formatting is not modelled): the `createModelled` domain marker"],
